@@ -92,6 +92,15 @@ def _bind_target(target, item):
 
 def _fold(node):
     class F(ast.NodeTransformer):
+        def visit_Subscript(self, n):
+            self.generic_visit(n)
+            # [a, b, c][1] -> b   (a constant index into a list / tuple display)
+            if isinstance(n.value, (ast.List, ast.Tuple)) and isinstance(n.slice, ast.Constant) and isinstance(n.slice.value, int) \
+                    and not isinstance(n.slice.value, bool) and 0 <= n.slice.value < len(n.value.elts) and isinstance(n.ctx, ast.Load) \
+                    and not any(isinstance(e_, ast.Starred) for e_ in n.value.elts):
+                return n.value.elts[n.slice.value]
+            return n
+
         def visit_ListComp(self, n):
             self.generic_visit(n)
             # [f(k) for k in range(3)] -> [f(0), f(1), f(2)]
